@@ -1067,7 +1067,10 @@ func (db *DatabaseCollectionWithUser) getAvailableRevAttachments(ctx context.Con
 }
 
 // Moves a revision's ancestor's body out of the document object and into a separate db doc.
-func (db *DatabaseCollectionWithUser) backupAncestorRevs(ctx context.Context, doc *Document, newDocRevID string, ch base.Set) {
+// prevCurrentRev and prevCurrentChannels are the document's winning revision and its channels before the update.
+// prevLeafChannels holds the channels of non-winning leaf revisions before the update (the rev tree strips a
+// revision's channels as soon as a child is added, so they can't be read from doc.History here).
+func (db *DatabaseCollectionWithUser) backupAncestorRevs(ctx context.Context, doc *Document, newDocRevID string, prevCurrentRev string, prevCurrentChannels base.Set, prevLeafChannels map[string]base.Set) {
 
 	// Find an ancestor that still has JSON in the document:
 	var json []byte
@@ -1085,6 +1088,16 @@ func (db *DatabaseCollectionWithUser) backupAncestorRevs(ctx context.Context, do
 	revInfo, ok := doc.History[ancestorRevId]
 	if !ok {
 		return
+	}
+	// Stamp the backup with the channels of the revision being backed up. That's only the pre-update winning
+	// revision's channels when the ancestor *is* the pre-update winning revision - when the update extends a
+	// non-winning branch, the ancestor's own channels must be used (never the winner's).
+	ch := prevCurrentChannels
+	if ancestorRevId != prevCurrentRev {
+		ch = prevLeafChannels[ancestorRevId]
+		if ch == nil {
+			ch = base.Set{}
+		}
 	}
 	db.backupRevisionJSON(ctx, doc.ID, ancestorRevId, json, ch, revInfo.Deleted)
 
@@ -2712,6 +2725,16 @@ func (col *DatabaseCollectionWithUser) documentUpdateFunc(
 	// grab the current channels so that we're able to use them when stamping the backup revision later
 	// we lose channel information for non-leaf revisions in the RevTree when updated, so we take a copy now.
 	oldChannels := doc.getCurrentChannels()
+	// likewise for non-winning leaf revisions: RevTree.addRevision strips the parent's channels when a child is added.
+	var oldLeafChannels map[string]base.Set
+	for revID, revInfo := range doc.History {
+		if revInfo != nil && revInfo.Channels != nil {
+			if oldLeafChannels == nil {
+				oldLeafChannels = make(map[string]base.Set)
+			}
+			oldLeafChannels[revID] = revInfo.Channels
+		}
+	}
 
 	// compute mouMatch before the callback modifies doc.MetadataOnlyUpdate
 	mouMatch := false
@@ -2786,7 +2809,7 @@ func (col *DatabaseCollectionWithUser) documentUpdateFunc(
 		}
 	}
 
-	col.backupAncestorRevs(ctx, doc, newDoc.RevID, oldChannels)
+	col.backupAncestorRevs(ctx, doc, newDoc.RevID, prevCurrentRev, oldChannels, oldLeafChannels)
 
 	unusedSequences, err = col.assignSequence(ctx, previousDocSequenceIn, doc, unusedSequences)
 	if err != nil {
